@@ -466,7 +466,13 @@ pub fn main() {
             nviol += 1;
             *fail_keys.entry(t.name.clone()).or_default() += 1;
             if violations.len() < 40 {
-                violations.push(json!({"case": case, "target": t.name, "rot": rot, "slice_prefix": pre, "step": step, "oracle": msg}));
+                // known finding (narrow): vectorized GroupValuesColumn<false>, nested-type key column (hash collisions
+                // between NULL / empty lists ...), ids diverge at an intern that follows an emit(First n)
+                let nested = t.schema.fields().iter().any(|f| f.data_type().is_nested());
+                let after_first = step >= 0 && ops[..step as usize].iter().any(|o| o["op"] == "emit_first");
+                let known = t.column_impl && matches!(t.ctor, Ctor::New | Ctor::ColF) && nested && after_first && msg.starts_with("intern(");
+                violations.push(json!({"case": case, "target": t.name, "rot": rot, "slice_prefix": pre, "step": step, "oracle": msg,
+                    "known_key": if known { Value::from("GroupValuesColumn<false>: emit(First n) with several hash-collision lists loses live keys") } else { Value::Null }}));
             }
         }
     };
